@@ -448,6 +448,11 @@ class Runner:
                 nxt = self.interp(ops, i + 1)
         except SimFault as f:
             fault = f
+        except (Violation, HarnessError):
+            raise
+        except Exception as e:
+            raise Violation("context-exit-raises" if with_entered else "context-enter-raises",
+                            "context %r entered at op %d: %s: %s" % (tag, i, type(e).__name__, e))
         if not with_entered:
             raise HarnessError("context not entered")
         self.stack.pop()
